@@ -254,7 +254,7 @@ Section RunJ.
     { intros D. unfold apply_ids. rewrite (PL_noapply D). reflexivity. }
     assert (PL_local : forall q l, In q (pl_apply pl) -> p_local q = Some l -> l_id l = p_id q).
     { intros q l Hq E. destruct (bp_apply_is_local sc known locals pobjs q Hq) as [l' [-> _]]. cbn in E. injection E as <-. reflexivity. }
-    pose proof (sched_tasks_of sc known locals pobjs PL_noapply) as SCHED. fold pl in SCHED.
+    pose proof (sched_tasks_of sc known locals pobjs HL HP HD PL_noapply) as SCHED. fold pl in SCHED.
     pose proof (tasks_todo sc known locals pobjs HL HP HD) as TODO. fold pl in TODO.
     set (td := todo_of (tasks_of sc pl)) in *.
     (* registration and the second read *)
